@@ -243,6 +243,22 @@ def check_metamorphic(short, inum, t, data):
         r3 = amb.retry_decode(DeviceInstanceTypeMapper())
         if r3 is not None:
             out.append(("C12:retry-without-entry", "%s: retry with an empty map gave %r" % (where, r3)))
+        # two buses, two maps: the event was decoded against map A (no entry then), A has learnt the type since;
+        # a retry with ANOTHER map that is empty (fresh or cleared) answers for that map, not for A
+        map_a = DeviceInstanceTypeMapper()
+        amb_a = command.from_frame(frame.ForwardFrame(24, v_di), dev_inst_map=map_a)
+        map_a.add_type(short_address=short, instance_number=inum, instance_type=t)
+        cleared = DeviceInstanceTypeMapper()
+        cleared.add_type(short_address=short, instance_number=inum, instance_type=t)
+        cleared.clear()
+        for label, mb in (("a fresh empty map", DeviceInstanceTypeMapper()), ("a cleared map", cleared)):
+            rb = amb_a.retry_decode(mb)
+            if rb is not None:
+                out.append(("C12:retry-answers-for-another-map", "%s: decoded against map A (no entry then, entry now), retried "
+                            "with %s: gave %r instead of None" % (where, label, describe(rb))))
+        ra = amb_a.retry_decode(map_a)
+        if ra is None or describe(ra) != describe(via_map):
+            out.append(("C12:retry-after-map-growth", "%s: retry with map A after it learnt the type gave %r" % (where, ra and describe(ra))))
         # the receiver of an event edits it (renumbers the source when merging two buses): later decodes are unaffected
         ref_desc = describe(via_map)
         try:
